@@ -51,20 +51,21 @@ PROPS = {
                 [U("Node.release"), U("Node.renege"), U("Node.decide_class_change")] + LOOPS[:3]),
     "C03": dict(units=[U("Node.release"), U("Node.renege"), U("Node.finish_service"), U("Node.accept"), U("ArrivalNode.have_event"),
                        U("Node.begin_interrupted_individuals_service")]),
-    "C04": dict(units=[U("Node.find_free_server"), U("Node.release"), U("Node.kill_server"), U("Node.add_new_servers")] + START + STATS),
-    "C05": dict(units=[U("Node.find_free_server"), U("Node.choose_next_customer"), U("Node.accept"),
+    "C04": dict(units=[U("Node.find_free_server"), U("Node.release"), U("Node.kill_server"), U("Node.add_new_servers"), U("Node.preempt"),
+                       U("Node.release_blocked_individual")] + START + STATS),
+    "C05": dict(units=[U("Node.find_free_server"), U("Node.choose_next_customer"), U("Node.accept"), U("Node.release_blocked_individual"),
                        U("Node.begin_service_if_possible_accept"), U("Node.begin_service_if_possible_release")]),
     "C06": dict(units=[U("Node.release"), U("Node.finish_service"), U("Node.accept"), U("Node.release_blocked_individual"),
                        U("ArrivalNode.release_individual")]),
     "C07": dict(units=[U("Node.block_individual"), U("Node.finish_service"), U("Node.release"), U("Node.release_blocked_individual"),
                        U("Node.accept"), U("Node.update_next_end_service_with_server"),
                        U("Node.update_next_end_service_without_server"), U("Node.begin_interrupted_individuals_service")]),
-    "C08": dict(units=[U("FIFO"), U("LIFO"), U("SIRO"), U("Node.choose_next_customer"), U("Node.begin_service_if_possible_release")]),
+    "C08": dict(units=[U("FIFO"), U("LIFO"), U("SIRO"), U("Node.choose_next_customer"), U("Node.begin_service_if_possible_release"), U("Node.preempt")]),
     "C09": dict(units=[U("random_choice"), U("Node.change_customer_class"), U("Node.find_next_class_change"),
                        U("Node.decide_class_change"), U("Node.release"), U("Node.renege"), U("Node.finish_service"),
-                       U("ArrivalNode.have_event"), U("Node.change_customer_class_while_waiting")] + ROUTERS),
+                       U("ArrivalNode.have_event"), U("Node.change_customer_class_while_waiting"), U("Node.begin_interrupted_individuals_service")] + ROUTERS),
     "C10": dict(units=[U("Distribution._sample"), U("ArrivalNode.find_next_event_date"), U("Node.decide_class_change"),
-                       U("ArrivalNode.have_event"), U("ArrivalNode.batch_size"), U("ArrivalNode.inter_arrival")] + START + EXACT[:2]),
+                       U("ArrivalNode.have_event"), U("ArrivalNode.batch_size"), U("ArrivalNode.inter_arrival"), U("Node.renege"), U("Node.release"), U("Node.accept")] + START + EXACT[:2]),
     "C11": dict(units=[U("Node.begin_interrupted_individuals_service"), U("Node.decide_preempt"), U("Node.preempt"), U("Node.change_customer_class_while_waiting"),
                        U("Node.begin_service_if_possible_accept"), U("Node.begin_service_if_possible_release")]),
     "C12": dict(units=SCHEDULES + [U("Node.decide_preempt"), U("Node.decide_next_event"), U("Node.update_next_end_service_without_server"), U("Node.update_next_event_date"),
